@@ -49,21 +49,37 @@ Proof.
     destruct (pann p); simpl in *; [discriminate|]. reflexivity.
 Qed.
 
-Definition cf (magic : bool) (l : list argument) : nat :=
-  List.length (filter (fun a => negb magic && a_pos_only a) l).
 Definition has_star (acc : list argsig) : bool := existsb (fun s => starts_with "*" (s_name s)) acc.
 
 Lemma has_star_app : forall a b, has_star (a ++ b) = has_star a || has_star b.
 Proof. intros; unfold has_star; apply existsb_app. Qed.
 
+(* the loop computes the list and the slash position independently of each other *)
+Fixpoint accf (i : nat) (acc : list argsig) (l : list argument) : list argsig :=
+  match l with
+  | [] => acc
+  | a :: r =>
+      let acc1 := if is_named (a_kind a) && negb (existsb (fun s => starts_with "*" (s_name s)) acc)
+                  then acc ++ [bare "*"] else acc in
+      accf (S i) (acc1 ++ [sig_of i a]) r
+  end.
+Fixpoint cntf (magic : bool) (i cnt : nat) (l : list argument) : nat :=
+  match l with
+  | [] => cnt
+  | a :: r => cntf magic (S i) (if negb magic && a_pos_only a && is_positional (a_kind a) && Nat.eqb cnt i then S cnt else cnt) r
+  end.
+
+Lemma gfa_loop_eq : forall magic l i acc cnt, gfa_loop magic i acc cnt l = (accf i acc l, cntf magic i cnt l).
+Proof. induction l as [|a r IH]; intros; simpl; [reflexivity|]. apply IH. Qed.
+
 (* once a name starting with * is in the list, or when no keyword-only argument follows: plain appends *)
-Lemma gfa_loop_simple : forall magic l i acc cnt,
+Lemma accf_simple : forall l i acc,
   forallb (fun a => plain (a_param a)) l = true ->
   (has_star acc = true \/ forallb (fun a => negb (is_named (a_kind a))) l = true) ->
-  gfa_loop magic i acc cnt l = (acc ++ map sig1 l, cnt + cf magic l).
+  accf i acc l = acc ++ map sig1 l.
 Proof.
-  induction l as [|a r IH]; intros i acc cnt Hp Hs; simpl.
-  - rewrite app_nil_r. f_equal. unfold cf; simpl; lia.
+  induction l as [|a r IH]; intros i acc Hp Hs; simpl.
+  - rewrite app_nil_r. reflexivity.
   - simpl in Hp. apply andb_true_iff in Hp as [Hp1 Hp2].
     assert (Hins : is_named (a_kind a) && negb (existsb (fun s => starts_with "*" (s_name s)) acc) = false).
     { destruct Hs as [Hs|Hs].
@@ -71,8 +87,7 @@ Proof.
       - simpl in Hs. apply andb_true_iff in Hs as [Hs _]. destruct (is_named (a_kind a)); [discriminate|reflexivity]. }
     rewrite Hins. rewrite sig_of_plain by assumption.
     rewrite IH; try assumption.
-    + rewrite <- app_assoc. simpl. f_equal. unfold cf. simpl.
-      destruct (negb magic && a_pos_only a); simpl; lia.
+    + rewrite <- app_assoc. reflexivity.
     + destruct Hs as [Hs|Hs].
       * left. rewrite has_star_app, Hs. reflexivity.
       * right. simpl in Hs. apply andb_true_iff in Hs as [_ Hs]. exact Hs.
@@ -233,9 +248,7 @@ Proof.
 Qed.
 
 (* ------------------------------------------------------------ closed form of _get_func_args *)
-Lemma gfa_loop_app : forall magic l1 l2 i acc cnt,
-  gfa_loop magic i acc cnt (l1 ++ l2) =
-  let '(acc', cnt') := gfa_loop magic i acc cnt l1 in gfa_loop magic (i + List.length l1) acc' cnt' l2.
+Lemma accf_app : forall l1 l2 i acc, accf i acc (l1 ++ l2) = accf (i + List.length l1) (accf i acc l1) l2.
 Proof.
   induction l1 as [|a r IH]; intros; simpl.
   - rewrite Nat.add_0_r. reflexivity.
@@ -249,12 +262,11 @@ Proof. reflexivity. Qed.
 Definition ppos (p : param) : argsig := psig (pos_kind p) p.
 Definition pnamed (p : param) : argsig := psig (named_kind p) p.
 
-Definition wfp (a : arguments) : Prop :=
-  wf_params a = true /\ self_cls_plain a = true /\ elide_ok a = true.
+Definition wfp (a : arguments) : Prop := wf_params a = true /\ self_cls_plain a = true.
 
 Definition P_of (a : arguments) : list param := posonly a ++ args a.
 Definition cnt_of (magic : bool) (a : arguments) : nat :=
-  if magic then 0 else List.length (posonly a) + List.length (filter flagged (args a)).
+  if magic then 0 else List.length (posonly a) + List.length (take_while flagged (args a)).
 
 Definition tail_sigs (a : arguments) : list argsig :=
   match vararg a with
@@ -270,44 +282,16 @@ Lemma wf_split : forall a, wfp a ->
   forallb pok (olist (kwarg a)) = true /\
   forallb plain (P_of a) = true /\ forallb plain (olist (vararg a)) = true /\ forallb plain (kwonly a) = true /\
   forallb plain (olist (kwarg a)) = true /\
-  mono false (P_of a) = true /\ no_default (vararg a) = true /\ no_default (kwarg a) = true /\
-  prefix_true (map flagged (args a)) = true /\
-  forallb (fun p => negb (flagged p)) (olist (vararg a)) = true /\ forallb (fun p => negb (flagged p)) (kwonly a) = true /\
-  forallb (fun p => negb (flagged p)) (olist (kwarg a)) = true.
+  mono false (P_of a) = true /\ no_default (vararg a) = true /\ no_default (kwarg a) = true.
 Proof.
-  intros a (Hw & Hs & He). unfold wf_params, self_cls_plain, elide_ok, all_params, P_of in *.
+  intros a (Hw & Hs). unfold wf_params, self_cls_plain, all_params, P_of in *.
   repeat (apply andb_true_iff in Hw as [Hw ?]).
-  apply andb_true_iff in He as [He1 He2].
-  fold pok in Hw. change (fun p => ident_ok (pname p) && text_ok p) with pok in Hw.
+  change (fun p => ident_ok (pname p) && text_ok p) with pok in Hw.
   change (fun p => if (pname p =? "self") || (pname p =? "cls") then negb (isSome (pann p)) else true) with plain in Hs.
   rewrite app_assoc in Hw, Hs.
   apply forallb_app_iff in Hw as [Hw1 Hw]. apply forallb_app_iff in Hw as [Hw2 Hw]. apply forallb_app_iff in Hw as [Hw3 Hw4].
   apply forallb_app_iff in Hs as [Hs1 Hs]. apply forallb_app_iff in Hs as [Hs2 Hs]. apply forallb_app_iff in Hs as [Hs3 Hs4].
-  apply forallb_app_iff in He2 as [He2 He3]. apply forallb_app_iff in He3 as [He3 He4].
   repeat split; assumption.
-Qed.
-
-Lemma cf_map_flag : forall magic (l : list param) (k : param -> argkind) b,
-  cf magic (map (fun p => make_argument p (k p) b) l) =
-  if magic then 0 else List.length (filter (fun p => if flagged p then true else b) l).
-Proof.
-  intros magic l k b. unfold cf. induction l as [|p r IH]; simpl.
-  - destruct magic; reflexivity.
-  - unfold flagged in *. destruct magic; simpl in *; [exact IH|].
-    destruct (argument_elide_name (pname p)); simpl; [rewrite IH; reflexivity|].
-    destruct b; simpl; rewrite IH; reflexivity.
-Qed.
-
-Lemma filter_true : forall A (l : list A), filter (fun _ => true) l = l.
-Proof. induction l; simpl; congruence. Qed.
-
-Lemma cf_unflagged : forall magic (l : list param) (k : param -> argkind),
-  forallb (fun p => negb (flagged p)) l = true ->
-  cf magic (map (fun p => make_argument p (k p) false) l) = 0.
-Proof.
-  intros. rewrite cf_map_flag. destruct magic; [reflexivity|].
-  induction l as [|p r IH]; simpl in *; [reflexivity|].
-  apply andb_true_iff in H as [H1 H2]. apply negb_true_iff in H1. rewrite H1. auto.
 Qed.
 
 Lemma has_star_pos : forall l, forallb pok l = true -> has_star (map ppos l) = false.
@@ -319,9 +303,6 @@ Proof.
   unfold ppos, psig, sig1, sig_of, pos_kind; simpl. destruct (pdef p) as [[dv ity]|]; simpl; exact H4.
 Qed.
 
-Lemma map_map' : forall A B C (f : A -> B) (g : B -> C) l, map g (map f l) = map (fun x => g (f x)) l.
-Proof. intros; apply map_map. Qed.
-
 Lemma plain_map : forall (l : list param) (k : param -> argkind) b, forallb plain l = true ->
   forallb (fun a => plain (a_param a)) (map (fun p => make_argument p (k p) b) l) = true.
 Proof. induction l; simpl; intros; [reflexivity|]. apply andb_true_iff in H as [? ?]. rewrite H. simpl. auto. Qed.
@@ -330,28 +311,18 @@ Lemma notnamed_map : forall (l : list param) (k : param -> argkind) b, (forall p
   forallb (fun a => negb (is_named (a_kind a))) (map (fun p => make_argument p (k p) b) l) = true.
 Proof. induction l; simpl; intros; [reflexivity|]. rewrite H. simpl. auto. Qed.
 
-Lemma gfa_closed : forall magic a, wfp a ->
-  gfa_loop magic 0 [] 0 (transform_args a) = (map ppos (P_of a) ++ tail_sigs a, cnt_of magic a).
+Lemma accf_closed : forall a, wfp a -> accf 0 [] (transform_args a) = map ppos (P_of a) ++ tail_sigs a.
 Proof.
-  intros magic a H.
-  destruct (wf_split a H) as (Hk1 & Hk2 & Hk3 & Hk4 & Hp1 & Hp2 & Hp3 & Hp4 & Hm & Hd1 & Hd2 & Hpre & Hf1 & Hf2 & Hf3).
+  intros a H.
+  destruct (wf_split a H) as (Hk1 & Hk2 & Hk3 & Hk4 & Hp1 & Hp2 & Hp3 & Hp4 & Hm & Hd1 & Hd2).
   unfold P_of in *. apply forallb_app_iff in Hp1 as [Hp1a Hp1b].
   unfold transform_args.
-  (* positional part *)
-  rewrite app_assoc. rewrite gfa_loop_app.
-  rewrite gfa_loop_simple.
+  rewrite app_assoc. rewrite accf_app.
+  rewrite (accf_simple (map (fun p => make_argument p (pos_kind p) true) (posonly a) ++
+                        map (fun p => make_argument p (pos_kind p) false) (args a)) 0 []).
   2:{ rewrite forallb_app. rewrite !plain_map by assumption. reflexivity. }
   2:{ right. rewrite forallb_app. rewrite !notnamed_map; [reflexivity| |]; intros p; unfold pos_kind; destruct (pdef p); reflexivity. }
   simpl app at 1.
-  assert (Ecnt : 0 + cf magic (map (fun p => make_argument p (pos_kind p) true) (posonly a) ++
-                              map (fun p => make_argument p (pos_kind p) false) (args a)) = cnt_of magic a).
-  { unfold cnt_of. unfold cf. rewrite filter_app, app_length. fold (cf magic (map (fun p => make_argument p (pos_kind p) true) (posonly a))).
-    fold (cf magic (map (fun p => make_argument p (pos_kind p) false) (args a))).
-    rewrite !cf_map_flag. destruct magic; [reflexivity|]. simpl.
-    f_equal.
-    - f_equal. rewrite <- (filter_true _ (posonly a)) at 2. apply filter_ext. intros p. destruct (flagged p); reflexivity.
-    - f_equal. apply filter_ext. intros p. destruct (flagged p); reflexivity. }
-  rewrite Ecnt.
   assert (Eacc : map sig1 (map (fun p => make_argument p (pos_kind p) true) (posonly a) ++
                           map (fun p => make_argument p (pos_kind p) false) (args a)) = map ppos (posonly a ++ args a)).
   { rewrite map_app, !map_map, map_app. reflexivity. }
@@ -362,23 +333,12 @@ Proof.
   clearbody I.
   unfold tail_sigs.
   destruct (vararg a) as [v|] eqn:Ev.
-  - (* *args *)
-    simpl olist. simpl map at 1. cbn [app].
-    cbn [gfa_loop].
-    simpl in Hp2, Hf1. apply andb_true_iff in Hp2 as [Hp2 _]. apply andb_true_iff in Hf1 as [Hf1 _].
-    apply negb_true_iff in Hf1. unfold flagged in Hf1.
-    assert (Epo : a_pos_only (make_argument v ARG_STAR false) = false) by (unfold make_argument; simpl; rewrite Hf1; reflexivity).
-    rewrite Epo. cbn [a_kind make_argument is_named andb].
+  - simpl olist. simpl map at 1. cbn [app]. cbn [accf].
+    simpl in Hp2. apply andb_true_iff in Hp2 as [Hp2 _].
+    cbn [a_kind make_argument is_named andb].
     rewrite sig_of_plain by (simpl; assumption). rewrite sig1_make.
-    rewrite andb_false_r.
-    rewrite gfa_loop_simple.
-    + rewrite map_app, !map_map. f_equal.
-      * rewrite <- !app_assoc. simpl. reflexivity.
-      * unfold cf. rewrite filter_app, app_length.
-        fold (cf magic (map (fun p => make_argument p (named_kind p) false) (kwonly a))).
-        fold (cf magic (map (fun p => make_argument p ARG_STAR2 false) (olist (kwarg a)))).
-        rewrite (cf_unflagged magic (kwonly a) named_kind) by assumption.
-        rewrite (cf_unflagged magic (olist (kwarg a)) (fun _ => ARG_STAR2)) by assumption. lia.
+    rewrite accf_simple.
+    + rewrite map_app, !map_map. rewrite <- !app_assoc. simpl. reflexivity.
     + rewrite forallb_app. rewrite (plain_map (kwonly a) named_kind) by assumption.
       rewrite (plain_map (olist (kwarg a)) (fun _ => ARG_STAR2)) by assumption. reflexivity.
     + left. rewrite has_star_app. simpl. unfold starts_with. simpl.
@@ -386,37 +346,80 @@ Proof.
       destruct (pname v); simpl; rewrite orb_true_r; reflexivity.
   - simpl olist. simpl map at 1. simpl app at 1.
     destruct (kwonly a) as [|k ko] eqn:Ek.
-    + (* no keyword-only *)
-      simpl map at 1. simpl app at 1.
-      rewrite gfa_loop_simple.
-      * rewrite (cf_unflagged magic (olist (kwarg a)) (fun _ => ARG_STAR2)) by assumption.
-        rewrite !map_map. f_equal. lia.
+    + simpl map at 1. simpl app at 1.
+      rewrite accf_simple.
+      * rewrite !map_map. reflexivity.
       * apply (plain_map (olist (kwarg a)) (fun _ => ARG_STAR2)); assumption.
       * right. apply (notnamed_map (olist (kwarg a)) (fun _ => ARG_STAR2)). reflexivity.
-    + (* bare star inserted before the first keyword-only parameter *)
-      simpl map at 1. cbn [app].
-      cbn [gfa_loop].
-      simpl in Hp3, Hf2. apply andb_true_iff in Hp3 as [Hp3a Hp3b]. apply andb_true_iff in Hf2 as [Hf2a Hf2b].
-      apply negb_true_iff in Hf2a. unfold flagged in Hf2a.
-      assert (Epo : a_pos_only (make_argument k (named_kind k) false) = false) by (unfold make_argument; simpl; rewrite Hf2a; reflexivity).
-      rewrite Epo. cbn [a_kind make_argument].
+    + simpl map at 1. cbn [app]. cbn [accf].
+      simpl in Hp3. apply andb_true_iff in Hp3 as [Hp3a Hp3b].
+      cbn [a_kind make_argument].
       fold (has_star ACC). rewrite Hst.
       assert (En : is_named (named_kind k) = true) by (unfold named_kind; destruct (pdef k); reflexivity).
       rewrite En. cbn [andb negb].
       rewrite sig_of_plain by (simpl; assumption). rewrite sig1_make.
-      rewrite andb_false_r.
-      rewrite gfa_loop_simple.
-      * rewrite map_app, !map_map. f_equal.
-        -- rewrite <- !app_assoc. simpl. reflexivity.
-        -- unfold cf. rewrite filter_app, app_length.
-           fold (cf magic (map (fun p => make_argument p (named_kind p) false) ko)).
-           fold (cf magic (map (fun p => make_argument p ARG_STAR2 false) (olist (kwarg a)))).
-           rewrite (cf_unflagged magic ko named_kind) by assumption.
-           rewrite (cf_unflagged magic (olist (kwarg a)) (fun _ => ARG_STAR2)) by assumption. lia.
+      rewrite accf_simple.
+      * rewrite map_app, !map_map. rewrite <- !app_assoc. simpl. reflexivity.
       * rewrite forallb_app. rewrite (plain_map ko named_kind) by assumption.
         rewrite (plain_map (olist (kwarg a)) (fun _ => ARG_STAR2)) by assumption. reflexivity.
       * left. rewrite !has_star_app. simpl. rewrite orb_true_r. reflexivity.
 Qed.
+
+(* position of the slash *)
+Definition pcond (a : argument) : bool := a_pos_only a && is_positional (a_kind a).
+
+Lemma cntf_magic : forall l i cnt, cntf true i cnt l = cnt.
+Proof. induction l; intros; simpl; [reflexivity|]. apply IHl. Qed.
+
+Lemma cntf_lt : forall magic l i cnt, cnt < i -> cntf magic i cnt l = cnt.
+Proof.
+  induction l as [|a r IH]; intros i cnt H; simpl; [reflexivity|].
+  assert (E : Nat.eqb cnt i = false) by (apply Nat.eqb_neq; lia).
+  rewrite E, andb_false_r. apply IH. lia.
+Qed.
+
+Lemma cntf_run : forall l i, cntf false i i l = i + List.length (take_while pcond l).
+Proof.
+  induction l as [|a r IH]; intros i; simpl; [lia|].
+  rewrite Nat.eqb_refl, andb_true_r. fold (pcond a). unfold pcond at 1. 
+  destruct (a_pos_only a && is_positional (a_kind a)) eqn:E; fold (pcond a) in E; rewrite E.
+  - rewrite IH. simpl. lia.
+  - rewrite cntf_lt by lia. simpl. lia.
+Qed.
+
+Lemma tw_app_all : forall A (f : A -> bool) l1 l2, forallb f l1 = true -> take_while f (l1 ++ l2) = l1 ++ take_while f l2.
+Proof. induction l1; simpl; intros; [reflexivity|]. apply andb_true_iff in H as [H1 H2]. rewrite H1, IHl1 by assumption. reflexivity. Qed.
+
+Lemma tw_args : forall (l : list param) rest, take_while pcond rest = [] ->
+  List.length (take_while pcond (map (fun p => make_argument p (pos_kind p) false) l ++ rest)) = List.length (take_while flagged l).
+Proof.
+  induction l as [|p r IH]; intros rest Hr; simpl; [rewrite Hr; reflexivity|].
+  unfold pcond at 1, make_argument at 1, flagged at 1. simpl.
+  assert (Ep : is_positional (pos_kind p) = true) by (unfold pos_kind; destruct (pdef p); reflexivity).
+  rewrite Ep, andb_true_r.
+  destruct (argument_elide_name (pname p)); simpl; [rewrite IH by assumption; reflexivity|reflexivity].
+Qed.
+
+Lemma cntf_closed : forall magic a, cntf magic 0 0 (transform_args a) = cnt_of magic a.
+Proof.
+  intros magic a. unfold cnt_of. destruct magic; [apply cntf_magic|].
+  rewrite cntf_run. simpl. unfold transform_args.
+  rewrite tw_app_all.
+  2:{ induction (posonly a) as [|p r IH]; simpl; [reflexivity|]. rewrite IH, andb_true_r.
+      unfold pcond, make_argument; simpl.
+      assert (Ep : is_positional (pos_kind p) = true) by (unfold pos_kind; destruct (pdef p); reflexivity).
+      rewrite Ep. destruct (argument_elide_name (pname p)); reflexivity. }
+  rewrite app_length, map_length. f_equal.
+  apply tw_args.
+  destruct (vararg a); [simpl; unfold pcond; simpl; rewrite andb_false_r; reflexivity|]. simpl.
+  destruct (kwonly a) as [|k ko]; simpl.
+  - destruct (kwarg a); [simpl; unfold pcond; simpl; rewrite andb_false_r; reflexivity|reflexivity].
+  - unfold pcond, make_argument, named_kind; simpl. destruct (pdef k); simpl; rewrite andb_false_r; reflexivity.
+Qed.
+
+Lemma gfa_closed : forall magic a, wfp a ->
+  gfa_loop magic 0 [] 0 (transform_args a) = (map ppos (P_of a) ++ tail_sigs a, cnt_of magic a).
+Proof. intros. rewrite gfa_loop_eq, accf_closed, cntf_closed by assumption. reflexivity. Qed.
 
 (* ------------------------------------------------------------ printed form as pieces *)
 Definition pieces_pos (c : nat) (P : list param) : list piece :=
@@ -460,7 +463,7 @@ Qed.
 Lemma argdef_tail : forall a, wfp a -> map arg_def (tail_sigs a) = map piece_toks (tail_pieces a).
 Proof.
   intros a H.
-  destruct (wf_split a H) as (Hk1 & Hk2 & Hk3 & Hk4 & _ & _ & _ & _ & _ & Hd1 & Hd2 & _).
+  destruct (wf_split a H) as (Hk1 & Hk2 & Hk3 & Hk4 & _ & _ & _ & _ & _ & Hd1 & Hd2).
   unfold tail_sigs, tail_pieces. rewrite !map_app.
   rewrite (argdef_star ARG_STAR2 Star2 (kwarg a)) by auto. f_equal.
   destruct (vararg a) as [v|] eqn:Ev.
@@ -472,13 +475,13 @@ Proof.
     rewrite argdef_named by assumption. reflexivity.
 Qed.
 
-Lemma filter_len : forall A (f : A -> bool) l, List.length (filter f l) <= List.length l.
+Lemma tw_len : forall A (f : A -> bool) l, List.length (take_while f l) <= List.length l.
 Proof. induction l; simpl; [lia|]. destruct (f a); simpl; lia. Qed.
 
 Lemma cnt_le : forall magic a, cnt_of magic a <= List.length (P_of a).
 Proof.
   intros. unfold cnt_of, P_of. rewrite app_length. destruct magic; [lia|].
-  pose proof (filter_len _ flagged (args a)). lia.
+  pose proof (tw_len _ flagged (args a)). lia.
 Qed.
 
 Lemma forallb_firstn : forall A (f : A -> bool) n l, forallb f l = true -> forallb f (firstn n l) = true.
@@ -551,18 +554,13 @@ Proof.
       rewrite run_kw. cbn [app]. apply run_kwarg; assumption.
 Qed.
 
-Lemma prefix_true_split : forall (f : param -> bool) l, prefix_true (map f l) = true ->
-  firstn (List.length (filter f l)) l = filter f l /\
-  skipn (List.length (filter f l)) l = filter (fun p => negb (f p)) l.
+Lemma tw_split : forall A (f : A -> bool) l,
+  firstn (List.length (take_while f l)) l = take_while f l /\
+  skipn (List.length (take_while f l)) l = drop_while f l.
 Proof.
-  induction l as [|p r IH]; intros H; simpl in *; [split; reflexivity|].
-  destruct (f p) eqn:E; simpl.
-  - destruct (IH H) as [I1 I2]. rewrite I1, I2. split; reflexivity.
-  - assert (F : filter f r = [] /\ filter (fun p => negb (f p)) r = r).
-    { clear IH E. induction r as [|q r' IH']; simpl in *; [split; reflexivity|].
-      apply andb_true_iff in H as [H1 H2]. apply negb_true_iff in H1. rewrite H1. simpl.
-      destruct (IH' H2) as [J1 J2]. rewrite J1, J2. split; reflexivity. }
-    destruct F as [F1 F2]. rewrite F1, F2. simpl. split; reflexivity.
+  induction l as [|p r IH]; simpl; [split; reflexivity|].
+  destruct (f p); simpl; [|split; reflexivity].
+  destruct IH as [I1 I2]. rewrite I1, I2. split; reflexivity.
 Qed.
 
 (* ------------------------------------------------------------ the round trip *)
@@ -571,7 +569,7 @@ Theorem sig_roundtrip_holds : forall magic a, wfp a ->
 Proof.
   intros magic a H.
   unfold parse_sig, print_sig. rewrite print_closed by assumption. rewrite items_join.
-  destruct (wf_split a H) as (_ & _ & _ & _ & _ & _ & _ & _ & Hm & Hd1 & Hd2 & Hpre & _).
+  destruct (wf_split a H) as (_ & _ & _ & _ & _ & _ & _ & _ & Hm & Hd1 & Hd2).
   rewrite map_app, kind_run_app.
   pose proof (cnt_le magic a) as Hle.
   unfold ps0.
@@ -581,8 +579,8 @@ Proof.
     rewrite run_tail by assumption.
     unfold stub_view, cnt_of, P_of in *. destruct magic; [reflexivity|].
     assert (E1 : posonly a = []) by (destruct (posonly a); [reflexivity|simpl in Ec; lia]).
-    assert (E2 : filter flagged (args a) = []) by (destruct (filter flagged (args a)); [reflexivity|simpl in Ec; lia]).
-    destruct (prefix_true_split flagged (args a) Hpre) as [_ S2]. rewrite E2 in S2. simpl in S2.
+    assert (E2 : take_while flagged (args a) = []) by (destruct (take_while flagged (args a)); [reflexivity|simpl in Ec; lia]).
+    destruct (tw_split _ flagged (args a)) as [_ S2]. rewrite E2 in S2. simpl in S2.
     rewrite E1, E2, <- S2. reflexivity.
   - unfold pieces_pos. rewrite map_app, kind_run_app. rewrite items_pos.
     set (A := firstn (S n) (P_of a)). set (B := skipn (S n) (P_of a)).
@@ -598,12 +596,12 @@ Proof.
     rewrite run_tail by assumption.
     unfold stub_view. unfold cnt_of in Ec. destruct magic; [discriminate|].
     f_equal.
-    destruct (prefix_true_split flagged (args a) Hpre) as [S1 S2].
-    assert (EA : A = posonly a ++ filter flagged (args a)).
+    destruct (tw_split _ flagged (args a)) as [S1 S2].
+    assert (EA : A = posonly a ++ take_while flagged (args a)).
     { unfold A, P_of. rewrite <- Ec. rewrite firstn_app_2. rewrite S1. reflexivity. }
-    assert (EB : B = filter (fun p => negb (flagged p)) (args a)).
+    assert (EB : B = drop_while flagged (args a)).
     { unfold B, P_of. rewrite <- Ec. rewrite skipn_app.
-      rewrite skipn_all2 by lia. replace (List.length (posonly a) + List.length (filter flagged (args a)) - List.length (posonly a)) with (List.length (filter flagged (args a))) by lia.
+      rewrite skipn_all2 by lia. replace (List.length (posonly a) + List.length (take_while flagged (args a)) - List.length (posonly a)) with (List.length (take_while flagged (args a))) by lia.
       rewrite S2. reflexivity. }
     rewrite EA, EB. reflexivity.
 Qed.
